@@ -33,7 +33,61 @@ def _ord_of(it, a, b, what):
             if c:
                 return c
         return 0
+    if isinstance(a, Adt) and isinstance(b, Adt) and a.name == b.name:
+        # a user type: its own Ord::cmp (or PartialOrd::partial_cmp)
+        pool = it.facts.insts.values() if it.mono else it.facts.fns.values()
+        ub = pb = None
+        for bdy in pool:
+            if bdy.get("impl_self", "").split("<")[0] != a.name:
+                continue
+            if bdy["path"].endswith("::cmp") and "Ord" in (bdy.get("impl_trait", "") or bdy["path"]) and "PartialOrd" not in (bdy.get("impl_trait", "") or bdy["path"]):
+                ub = bdy
+            if bdy["path"].endswith("::partial_cmp"):
+                pb = bdy
+        for body_, opt in ((ub, False), (pb, True)):
+            if body_ is None:
+                continue
+            o = it.call_body(body_, [Ref(Cell(a, "cmp-a")), Ref(Cell(b, "cmp-b"))])
+            if opt and isinstance(o, Adt) and o.variant == 1:
+                o = o.fields[0]
+            if isinstance(o, Adt) and o.variant is not None and not o.fields:
+                return o.variant - 1
     raise Undecided("%s: ordering of %r and %r" % (what, a, b))
+
+
+def struct_eq(it, a, b, depth=0):
+    """structural equality of two abstract values (what a derived / primitive PartialEq computes); Undecided when it is not determined"""
+    if depth > 8:
+        raise Undecided("equality nested too deep")
+    while isinstance(a, Ref) and isinstance(b, Ref):
+        va, vb = it.read(a.cell, a.path), it.read(b.cell, b.path)
+        if isinstance(va, (Arr, VecV)) and isinstance(vb, (Arr, VecV)):
+            na = (len(va.elems) - a.off) if a.len is None else a.len
+            nb = (len(vb.elems) - b.off) if b.len is None else b.len
+            if not isinstance(na, int) or not isinstance(nb, int):
+                raise Undecided("equality of slices of symbolic length")
+            if na != nb:
+                return False
+            return all(struct_eq(it, x, y, depth + 1) for x, y in zip(va.elems[a.off:a.off + na], vb.elems[b.off:b.off + nb]))
+        a, b = va, vb
+    if isinstance(a, Int) and isinstance(b, Int):
+        r = it.binop("Eq", a, b, "bool")
+        if _conc(r):
+            return bool(r.val)
+        raise Undecided("equality of %r and %r" % (a, b))
+    if isinstance(a, Tup) and isinstance(b, Tup) and len(a.fields) == len(b.fields):
+        return all(struct_eq(it, x, y, depth + 1) for x, y in zip(a.fields, b.fields))
+    if isinstance(a, (Arr, VecV)) and isinstance(b, (Arr, VecV)):
+        return len(a.elems) == len(b.elems) and all(struct_eq(it, x, y, depth + 1) for x, y in zip(a.elems, b.elems))
+    if isinstance(a, Adt) and isinstance(b, Adt) and a.name == b.name and a.variant is not None and b.variant is not None:
+        # only for types whose equality is structural here: std enums/structs and field-less user enums
+        if a.variant != b.variant:
+            return False
+        if not a.fields and not b.fields:
+            return True
+        if a.name.startswith("std::") or a.name.startswith("core::"):
+            return all(struct_eq(it, x, y, depth + 1) for x, y in zip(a.fields, b.fields))
+    raise Undecided("equality of %r and %r" % (a, b))
 
 
 def apply(it, fn, args, dest_ty, term, caller, depth, M):
@@ -86,6 +140,81 @@ def apply(it, fn, args, dest_ty, term, caller, depth, M):
                 v = None
             if isinstance(v, Arr):
                 return VecV(list(v.elems))
+
+    # ------------------------------------------------------------------ comparison of sequences (Vec / slice / array): lexicographic
+    if name in ("cmp", "partial_cmp", "eq", "ne", "lt", "le", "gt", "ge") and len(args) == 2 and tr.split("::")[-1].split("<")[0] in ("Ord", "PartialOrd", "PartialEq"):
+        def seq_items(x):
+            for _ in range(3):
+                if isinstance(x, Ref):
+                    sq = seq_of(it, x)
+                    if sq is not None:
+                        return list(sq[0].elems[sq[1]:sq[1] + sq[2]])
+                    x = it.read(x.cell, x.path)
+                else:
+                    break
+            if isinstance(x, (VecV, Arr)):
+                return list(x.elems)
+            return None
+        xa, xb = seq_items(args[0]), seq_items(args[1])
+        if xa is not None and xb is not None and all(isinstance(e, Int) for e in xa + xb):
+            if name in ("eq", "ne"):
+                same = len(xa) == len(xb) and all(struct_eq(it, p_, q_) for p_, q_ in zip(xa, xb))
+                return mkbool(same if name == "eq" else not same)
+            c = 0
+            for p_, q_ in zip(xa, xb):
+                c = _ord_of(it, p_, q_, "sequence comparison")
+                if c:
+                    break
+            if c == 0:
+                c = (len(xa) > len(xb)) - (len(xa) < len(xb))
+            if name == "cmp":
+                return Adt(ORD, c + 1, [])
+            if name == "partial_cmp":
+                return some(Adt(ORD, c + 1, []))
+            return mkbool({"lt": c < 0, "le": c <= 0, "gt": c > 0, "ge": c >= 0}[name])
+
+    # ------------------------------------------------------------------ threads, modelled sequentially
+    # std::thread::scope / Scope::spawn / thread::spawn + join: the spawned closure is run at the spawn point and its value is handed
+    # out by join().  This is exact when the threads communicate only through their return values; a spawned closure that writes to
+    # a cell that existed before the spawn (shared mutable state) makes the run unsupported (schedule-dependent behaviour is not decided).
+    if path in ("std::thread::scope", "core::thread::scope") and len(args) == 1:
+        return call_callable(it, args[0], [Ref(Cell(Opaque("std::thread::Scope", {"thread-scope"}), "scope"))], term, caller, depth)
+    if (name == "spawn" and ("thread::Scope" in path or "thread::scoped::Scope" in path) and len(args) == 2) or \
+            (path in ("std::thread::spawn",) and len(args) == 1):
+        f = args[-1]
+        fv = deref_val(it, f)
+        shared = set()
+
+        def collect(v, d=0):
+            if d > 4:
+                return
+            if isinstance(v, Ref):
+                shared.add(id(v.cell))
+                collect(v.cell.v, d + 1)
+            elif isinstance(v, (Adt, Tup)):
+                for x in v.fields:
+                    collect(x, d + 1)
+            elif isinstance(v, (VecV, Arr)):
+                for x in v.elems[:64]:
+                    collect(x, d + 1)
+            elif hasattr(v, "upvars"):
+                for x in v.upvars:
+                    collect(x, d + 1)
+        collect(fv)
+        orig_write = it.write
+
+        def guarded_write(cell, path_, newv, tyhint=None):
+            if id(cell) in shared:
+                raise Unsupported("a spawned closure writes state shared with other threads (%s): the outcome may depend on the schedule" % getattr(cell, "name", "?"))
+            return orig_write(cell, path_, newv, tyhint)
+        it.write = guarded_write
+        try:
+            r = call_callable(it, f, [], term, caller, depth)
+        finally:
+            it.write = orig_write
+        return Adt("std::thread::JoinHandle", 0, [r])
+    if name == "join" and ("JoinHandle" in path) and len(args) == 1 and isinstance(args[0], Adt) and args[0].name == "std::thread::JoinHandle":
+        return Adt("std::result::Result", 0, [args[0].fields[0]])
 
     # ------------------------------------------------------------------ mem
     if path in ("core::mem::swap", "std::mem::swap") and len(args) == 2 and all(isinstance(a, Ref) for a in args):
@@ -438,6 +567,8 @@ def apply(it, fn, args, dest_ty, term, caller, depth, M):
                     items = [Ref(r.cell, r.path, off + i, k) for i in range(0, max(0, n - k + 1))]
                 elif name == "chunks_exact":
                     items = [Ref(r.cell, r.path, off + i, k) for i in range(0, n - n % k, k)]
+                    inner = IterV("owned", (Ref(Cell(VecV(items), name)), 0, len(items)))
+                    return IterV("chunks_exact", (inner, Ref(r.cell, r.path, off + n - n % k, n % k)))
                 else:
                     items = []
                     e_ = n
@@ -446,6 +577,9 @@ def apply(it, fn, args, dest_ty, term, caller, depth, M):
                         items.append(Ref(r.cell, r.path, off + s_, e_ - s_))
                         e_ = s_
                 return IterV("owned", (Ref(Cell(VecV(items), name)), 0, len(items)))
+            if name == "contains" and len(args) == 2:
+                x = args[1]
+                return mkbool(any(struct_eq(it, e, deref_val(it, x) if not isinstance(e, Ref) else x) for e in el))
             if name in ("binary_search",) and len(args) == 2:
                 x = deref_val(it, args[1])
                 lo_, hi_ = 0, n
@@ -656,6 +790,10 @@ def apply(it, fn, args, dest_ty, term, caller, depth, M):
                 return some(acc)
             if name == "try_fold":
                 return NotImplemented
+    if name == "remainder" and "ChunksExact" in path and len(args) == 1:
+        cv = deref_val(it, args[0])
+        if isinstance(cv, IterV) and cv.kind == "chunks_exact":
+            return cv.a[1]
     # iter::repeat / once / empty / repeat_n / successors are rare in this crate: not modelled
     if path in ("core::iter::once", "std::iter::once") and len(args) == 1:
         return IterV("owned", (Ref(Cell(VecV([args[0]]), "once")), 0, 1))
@@ -684,6 +822,31 @@ def apply(it, fn, args, dest_ty, term, caller, depth, M):
             s_ = seq_of(it, args[0])
             if s_ is not None:
                 return IterV("cloned", (IterV("slice", (args[0], 0, s_[2])),))
+    if path.startswith("core::str::<impl str>") and args and isinstance(args[0], Ref):
+        sq = seq_of(it, args[0])
+        if sq is not None:
+            v, off, n = sq
+            if name == "is_empty" and len(args) == 1:
+                return mkbool(n == 0)
+            if name == "len" and len(args) == 1:
+                return Int(64, False, val=n)
+            if name in ("split", "split_terminator") and len(args) == 2:
+                # the text is a vector of one-byte characters; the separator is a char predicate (closure / fn) or a char
+                pieces, start = [], 0
+                for i in range(n):
+                    ch = v.elems[off + i]
+                    chv = Int(32, False, bits=list(ch.getbits())[:8] + [ZERO] * 24, tags=ch.tags, kind="char") if isinstance(ch, Int) and ch.w == 8 else ch
+                    sep = deref_val(it, args[1])
+                    if isinstance(sep, Int):
+                        is_sep = _truth(it.binop("Eq", chv, sep, "bool"), "separator test")
+                    else:
+                        is_sep = _truth(call_callable(it, args[1], [chv], term, caller, depth), "separator predicate")
+                    if is_sep:
+                        pieces.append(Ref(args[0].cell, args[0].path, off + start, i - start))
+                        start = i + 1
+                if not (name == "split_terminator" and start == n):
+                    pieces.append(Ref(args[0].cell, args[0].path, off + start, n - start))
+                return IterV("owned", (Ref(Cell(VecV(pieces), "split")), 0, len(pieces)))
     if path in ("core::string::String::from_utf8", "core::str::from_utf8", "core::string::String::from_utf8_unchecked", "core::str::from_utf8_unchecked",
                 "core::string::String::from_utf8_lossy") and len(args) == 1:
         # exact only for bytes known to be ASCII: concrete values < 128 or results of the bits_to_ascii table (C16.1: always a letter)
